@@ -55,12 +55,30 @@ def dec(v):
         return set(dec(e) for e in x)
     if t == "F":
         return frozenset(dec(e) for e in x)
+    if t == "np":
+        # an array given by its raw bytes, dtype and shape (twins share bytes, shape and strides)
+        import numpy as np
+        return np.frombuffer(bytes.fromhex(x["bytes"]), dtype=np_dtype(x["dtype"])).reshape(x["shape"]).copy()
     raise ValueError(v)
+
+
+def np_dtype(spec):
+    import numpy as np
+    if isinstance(spec, list):
+        return np.dtype([tuple(tuple(e) if isinstance(e, list) else e for e in f) for f in spec])
+    return np.dtype(spec)
 
 
 def canon(v):
     """strict, order-insensitive text of a value: 1, 1.0 and True differ; dict/set order does not matter"""
     t = type(v).__name__
+    if t == "ndarray":
+        # dtype (byte order, fields, offsets, units), shape, strides and raw bytes: two arrays are the same
+        # argument only if all of them agree
+        return "ndarray:%s:%r:%r:%r:%s" % (v.dtype.str, v.dtype.descr if v.dtype.names else v.dtype.str,
+                                           (v.dtype.fields and sorted((n, str(f[0]), f[1]) for n, f in
+                                                                      v.dtype.fields.items())),
+                                           (v.shape, v.strides), v.tobytes().hex())
     if isinstance(v, (tuple, list)):
         return "%s(%s)" % (t, ",".join(canon(e) for e in v))
     if isinstance(v, dict):
@@ -115,6 +133,17 @@ def source_for(sc, k):
     sig = ", ".join(parts)
     pad = "".join("# pad %d\n" % j for j in range(ver.get("pad", 0)))
     kind = ver.get("kind", "def")
+    if ver.get("how"):
+        # one base text for all callables without __code__: a function, a class with a method and __call__
+        tag = ver["tag"]
+        items = "(('a', a), ('b', b), ('c', c), ('d', d))"
+        return ("_COUNT = [0]\n\n\n"
+                "def g(a, b, c=12, *, d=13):\n    _COUNT[0] += 1\n    return (%r, %s)\n\n\n"
+                "class K:\n    def __init__(self, s):\n        self.s = s\n\n"
+                "    def m(self, a, b, c=12, *, d=13):\n        _COUNT[0] += 1\n"
+                "        return (%r, 'm', self.s, %s)\n\n"
+                "    def __call__(self, b, c=12, *, d=13):\n        _COUNT[0] += 1\n"
+                "        return (%r, 'call', self.s, (('b', b), ('c', c), ('d', d)))\n" % (tag, items, tag, items, tag))
     if ver.get("slots") is not None:
         # position-aware edits: every literal sits on its own physical line; the final statement spans several
         # lines (tuple / list / dict literals continued over lines, implicit string concatenation, backslash
@@ -159,7 +188,7 @@ def source_for(sc, k):
 
 def ideal_filter_args(func, ignore, pos, kw):
     """what filter_args should return: the binding of the call in joblib's own name -> value convention"""
-    if isinstance(func, functools.partial):
+    if not inspect.isfunction(func) and not inspect.ismethod(func):
         return {"*": list(pos), "**": dict(kw)}       # joblib's documented convention for such callables
     sig = inspect.signature(func)
     ba = sig.bind(*pos, **kw)
@@ -234,12 +263,24 @@ def main():
                 if ver.get("kind") == "partial":
                     # 2-3 partial objects of ONE function: the base is executed once per process and file
                     if path not in bases:
-                        bases[path] = (load(modname, path), load("verifplain", path + ".plain"))
+                        stem = os.path.splitext(os.path.basename(path))[0]
+                        bases[path] = (load("verifmod_" + stem if ver.get("how") else modname, path),
+                                       load("verifplain", path + ".plain"))
                     ns, ns2 = bases[path]
                     fpos = [dec(v) for v in ver["frozen"]["pos"]]
                     fkw = {n: dec(v) for n, v in ver["frozen"]["kw"]}
-                    objs[k] = functools.partial(ns["g"], *fpos, **fkw)
-                    plains[k] = functools.partial(ns2["g"], *fpos, **fkw)
+
+                    def build(n_):
+                        how = ver.get("how", "func")
+                        if how == "method":       # partial of a method bound to its own instance (default repr)
+                            return functools.partial(n_["K"](ver.get("state", 0)).m, *fpos, **fkw)
+                        if how == "nested":       # partial of a partial
+                            return functools.partial(functools.partial(n_["g"], fpos[0]), *fpos[1:], **fkw)
+                        if how == "callable":     # an instance of a class with __call__ (default repr)
+                            return n_["K"](ver.get("state", 0))
+                        return functools.partial(n_["g"], *fpos, **fkw)
+                    objs[k] = build(ns)
+                    plains[k] = build(ns2)
                 else:
                     ns = load(modname, path)
                     ns2 = load("verifplain", path if path == "<string>" else path + ".plain")
@@ -274,7 +315,7 @@ def main():
                 scratch = {"__name__": objs[k].__module__}
                 exec(compile(src, os.path.join(moddir, sc["versions"][str(k)]["path"]), "exec"), scratch)
                 objs[k].__code__ = scratch["g"].__code__
-                res["o"] = "skip"
+                res["o"] = "done"
             elif kind == "wrap":
                 k = ev[1]
                 wraps[k] = mem.cache(objs[k], ignore=list(sc["ignore"]),
@@ -291,7 +332,7 @@ def main():
                     ba = inspect.signature(plains[k]).bind(*pos, **kw)
                     ba.apply_defaults()
                     res["bind"] = canon(dict(ba.arguments))
-                    if isinstance(plains[k], functools.partial):
+                    if not inspect.isfunction(plains[k]) and not inspect.ismethod(plains[k]):
                         raise _RawForm()
                     keep = {n: v for n, v in ba.arguments.items()
                             if {"va": "*", "vk": "**"}.get(
